@@ -95,6 +95,22 @@ def require_scalar_fragment(w: Walker, what: str) -> None:
     if hits:
         raise AnalysisError(f"{what}: nodes are selected with whole-array operations ({', '.join(hits)}); the rules "
                             "cover scalar loops over the nodes only - this form is outside the analysable fragment")
+    # a per-node table built by a comprehension, updated element by element and then tested: a hand-kept mirror of node
+    # state; what it holds at a test is an invariant of the function, not something a shape rule can read off
+    mirrors = getattr(w, "mut_tables", None) or ()
+    if mirrors:
+        from .ir import show, subterms
+        for e in w.events:
+            for g, _ in e.guards:
+                for t in subterms(g):
+                    if t[0] == "idx":
+                        b = t[1]
+                        while b[0] in ("idx", "old"):
+                            b = b[1]
+                        if b in mirrors:
+                            raise AnalysisError(f"{what}: a test reads '{show(t)[:60]}', a local per-node table that the function "
+                                                "updates as it goes (a mirror of node state); the rules read node state from the "
+                                                "nodes themselves - this form is outside the analysable fragment")
 
 
 def prototypes_searched(rep: Rep, repo: Repo, cls: str, pre: str = "") -> bool:
